@@ -773,10 +773,36 @@ func ruleVD7(c *Ctx) {
 			// events derive from buildTombstoneEvents(plan.PrunedIDs) and plan is what is returned
 			bte := c.F.Anchors["buildTombstoneEvents"]
 			okIDs := false
-			if bte != nil && len(call.Common().Args) >= 2 && valueFromCallTo(call.Common().Args[1], bte) {
+			// where the tombstone events are built: in the callback, or in the helper that applies the plan
+			// (applyPrunePlan(eventsPath, plan, agent) { events := buildTombstoneEvents(plan.PrunedIDs, ...); append })
+			bteHost := cb
+			if bte != nil && cal != nil && c.InModule(cal) && len(callsTo(cb, bte)) == 0 && len(callsTo(cal, bte)) > 0 {
+				bteHost = cal
+			}
+			if bte != nil && bteHost == cb && len(call.Common().Args) >= 2 && valueFromCallTo(call.Common().Args[1], bte) {
 				for _, bc := range callsTo(cb, bte) {
 					if _, n, ok := fieldLoad(bc.Common().Args[0]); ok && n == "PrunedIDs" {
 						okIDs = true
+					}
+				}
+			}
+			if bte != nil && bteHost != cb {
+				// inside the helper: the events appended derive from buildTombstoneEvents(<param>.PrunedIDs)
+				for _, inner := range callsIn(bteHost) {
+					ic := calleeOf(inner.Common())
+					if ic == nil || !commit[ic] || len(inner.Common().Args) < 2 || !valueFromCallTo(inner.Common().Args[1], bte) {
+						continue
+					}
+					for _, bc := range callsTo(bteHost, bte) {
+						if b, n, ok := fieldLoad(bc.Common().Args[0]); ok && n == "PrunedIDs" {
+							if _, isPrm := resolve(b).(*ssa.Parameter); isPrm {
+								okIDs = true
+							} else if _, isPrm := strip(b).(*ssa.Parameter); isPrm {
+								okIDs = true
+							} else if al, isAl := strip(b).(*ssa.Alloc); isAl && plainCopyOf(al) != nil {
+								okIDs = true
+							}
+						}
 					}
 				}
 			}
@@ -786,7 +812,7 @@ func ruleVD7(c *Ctx) {
 				sel := c.anchor("selectPruneTargets")
 				whole, why := true, ""
 				nOrig := 0
-				for _, bc := range callsTo(cb, bte) {
+				for _, bc := range callsTo(bteHost, bte) {
 					os, ok := fieldOrigins(bc.Common().Args[0], 0)
 					if !ok || len(os) == 0 {
 						whole, why = false, "origin of plan.PrunedIDs not followed"
